@@ -413,6 +413,25 @@ pub fn address_shapes() -> Vec<Vec<SocketAddr>> {
             out.push((0..n).map(|i| addr(i, bits & (1 << i) != 0)).collect());
         }
     }
+    // special address forms: one token per form, and all of them in one token
+    let special: Vec<SocketAddr> = vec![
+        SocketAddr::new(IpAddr::V6(Ipv4Addr::new(127, 0, 0, 1).to_ipv6_mapped()), 5000),
+        SocketAddr::new(IpAddr::V6(Ipv4Addr::new(10, 1, 2, 3).to_ipv6_mapped()), 1),
+        SocketAddr::new(IpAddr::V6(Ipv4Addr::new(192, 168, 0, 7).to_ipv6_compatible()), 65_535),
+        SocketAddr::new(IpAddr::V6(Ipv6Addr::LOCALHOST), 5000),
+        SocketAddr::new(IpAddr::V6(Ipv6Addr::UNSPECIFIED), 7),
+        SocketAddr::new(IpAddr::V6(Ipv6Addr::new(0xffff, 0xffff, 0xffff, 0xffff, 0xffff, 0xffff, 0xffff, 0xffff)), 0),
+        SocketAddr::new(IpAddr::V6(Ipv6Addr::new(0xfe80, 0, 0, 0, 0x0102, 0x0304, 0x0506, 0x0708)), 256),
+        SocketAddr::new(IpAddr::V6(Ipv6Addr::new(0x0001, 0x0203, 0x0405, 0x0607, 0x0809, 0x0a0b, 0x0c0d, 0x0e0f)), 0x0102),
+        SocketAddr::new(IpAddr::V4(Ipv4Addr::UNSPECIFIED), 0),
+        SocketAddr::new(IpAddr::V4(Ipv4Addr::BROADCAST), 65_535),
+        SocketAddr::new(IpAddr::V4(Ipv4Addr::LOCALHOST), 0x0100),
+        SocketAddr::new(IpAddr::V4(Ipv4Addr::new(1, 2, 3, 4)), 0x0102),
+    ];
+    for a in &special {
+        out.push(vec![*a]);
+    }
+    out.push(special.clone());
     for n in 5..=32usize {
         out.push((0..n).map(|i| addr(i, false)).collect());
         out.push((0..n).map(|i| addr(i, true)).collect());
